@@ -1,11 +1,11 @@
 #!/bin/bash
 # tools/keep_seed.sh <ID> <variant> : re-confirm a seeded change and keep it under /verif/seeded/<ID>/<variant>/
 set -e
-ID=$1; V=$2; SRC=/tmp/seeded/$ID/$V; DST=/verif/seeded/$ID/$V
+ID=$1; V=$2; SRC=${SEED_BASE:-/tmp/seeded}/$ID/$V; DST=/verif/seeded/$ID/$V
 /verif/tools/confirm_seed.py $ID $SRC $3 | tail -1
 mkdir -p $DST
 for f in $SRC/*; do
   case "$(basename $f)" in demo|*.o|*.a|a.out|repro_*|test_*bin*) continue;; esac
   if [ -f "$f" ] && [ $(stat -c %s "$f") -lt 300000 ] && ! file "$f" | grep -q ELF; then cp "$f" $DST/; fi
 done
-for extra in /tmp/seeded/$ID/*.sh; do [ -f "$extra" ] && cp "$extra" /verif/seeded/$ID/ || true; done
+for extra in ${SEED_BASE:-/tmp/seeded}/$ID/*.sh; do [ -f "$extra" ] && cp "$extra" /verif/seeded/$ID/ || true; done
